@@ -175,21 +175,30 @@ class EagerCat(Contract):
     file = "funsor/terms.py"
     qualname = "eager_cat"
     total = True
-    mutants = (("colliding name handed to the concatenation (pre-fix behaviour)", "    if name != part_name and any(name in part.inputs for part in parts):", "    if False:"),)
+    mutants = (
+        ("colliding name handed to the concatenation (pre-fix behaviour)", "    if name != part_name and any(name in part.inputs for part in parts):", "    if False:"),
+        ("a deferring concatenation rule is called as if it had returned a term (the defect of the first repair)", "        if result is None:\n            return None  # defer to default implementation\n", ""),
+    )
 
     def structures(self, tier):
         for nparts in (1, 2, 3):
             for name in ("p", "q"):
                 for collide in itertools.product((False, True), repeat=nparts):
                     yield "parts=%d,name=%s,parts_mentioning_name=%s" % (nparts, name, list(collide)), (nparts, name, collide)
+                    if nparts > 1:
+                        # parts the homogeneous rule has no case for (lazy terms): it returns None and so must eager_cat
+                        yield "parts=%d,name=%s,parts_mentioning_name=%s,rule-defers" % (nparts, name, list(collide)), (nparts, name, collide, "defers")
 
     def build(self, p, st):
-        nparts, name, collide = st
+        defers = len(st) > 3
+        nparts, name, collide = st[:3]
         parts = tuple(T("part%d" % i, ["p", "i"] + (["q"] if c else [])) for i, c in enumerate(collide))
         calls = []
 
         def homogeneous(nm, part_name, *ps):
             calls.append((nm, part_name, ps))
+            if defers:
+                return None
             ins = []
             for q in ps:
                 ins += [k for k in q.inputs if k not in ins and k != part_name]
@@ -198,8 +207,10 @@ class EagerCat(Contract):
         return Ctx(args=(name, parts, "p"), namespace=dict(eager_cat_homogeneous=homogeneous, len=len, any=core.sany), parts=parts, calls=calls, st=st)
 
     def ensures(self, ctx, result):
-        nparts, name, collide = ctx.st
+        nparts, name, collide = ctx.st[:3]
         parts = ctx.parts
+        if len(ctx.st) > 3:
+            return [("defers_when_the_concatenation_rule_defers", result is None and len(ctx.calls) == 1)]
         if nparts == 1:
             return [("single_part_is_renamed", result == parts[0](p=name) and not ctx.calls)]
         if name != "p" and any(collide):
